@@ -114,11 +114,11 @@ def run(ck):
         specs.append(dict(files=j["files"], origin="corpus:" + os.path.basename(j["_path"]), expect_rows=j.get("expect_rows"),
                           code=j.get("expect_code"), line=j.get("expect_line"), file=j.get("expect_file")))
     n_corpus = len(specs)
-    n_lay = fs.scaled(ck.n(140, 2500))
+    n_lay = fs.scaled(ck.n(110, 2500))
     for i in range(n_lay):
         rng = random.Random(f"C11:lay:{ck.seed}:{i}")
         specs.append(dict(files=layered(rng), origin=f"layered#{i}"))
-    n_sh = fs.scaled(ck.n(60, 900))
+    n_sh = fs.scaled(ck.n(45, 900))
     for i in range(n_sh):
         rng = random.Random(f"C11:sh:{ck.seed}:{i}")
         params = fg.Params(shadow=0.8, dotted=0.7, max_depth=3, name_pool=["Alpha", "Beta", "Node"], suffix=0.1,
